@@ -20,6 +20,10 @@
 //! cqueue::scope was left / the winning arm of select! has run), then MAYV_BUSY/2 longer, and cancels the owner THERE:
 //! parked in poll(None) with the cancel disabled.  The drain must go on waiting for the busy arm.
 //!
+//! MAYV_IDLE=1: the arms i >= 1 are IDLE: they sleep for IDLE_NS (3 s of virtual time, cancellable) at the start of their first
+//! top half, and arm 0 panics at the end of its first top half (about 1 ms after it started): the owner is parked in a poll
+//! by then and nothing but the end of arm 0 (its Done event) can wake it; timed polls use timeouts of 0.4 .. 1 s.
+//!
 //! Oracles (implementation side, independent of the Coq model):
 //!  * consumed once: an event (arm, round) is returned by poll at most once, only after it was sent;
 //!  * bottom half: runs only with its own top half done (tops == round + 1) and never twice (bots == round);
@@ -29,13 +33,17 @@
 //!    ends finds the owner's frame alive ("no arm is still executing when it returns");
 //!  * select! returns the token of an arm whose top and bottom half both ran exactly once;
 //!  * a panic of an arm is re-raised in the poller exactly once (never twice, never lost unless the owner
-//!    itself unwinds); nobody hangs (harness), nothing aborts (exit code).
+//!    itself unwinds); nobody hangs (harness), nothing aborts (exit code);
+//!  * promptness of that re-raise: the first panic of an arm is re-raised by the poll that is pending when the arm ends (or
+//!    the next one called): not later than PANIC_SLACK of virtual time after max(panic, call of that poll), and no poll
+//!    reports Timeout while a panicked arm has been gone for longer than PANIC_SLACK without its panic re-raised
+//!    (PANIC_SLACK = 200 ms exceeds the sum of the preemption stalls a run can get: 3 x 30 ms random + 30 ms directed).
 //!
 //! API records for the acceptor: see the binding coq/Rt/cqueue_sites.json.
 use mayv::*;
 use std::alloc::{GlobalAlloc, Layout, System};
 use std::panic::{catch_unwind, AssertUnwindSafe};
-use std::sync::atomic::{AtomicBool, AtomicUsize, Ordering::SeqCst};
+use std::sync::atomic::{AtomicBool, AtomicU64, AtomicUsize, Ordering::SeqCst};
 use std::sync::{Arc, Mutex};
 use std::time::Duration;
 
@@ -60,6 +68,12 @@ fn envn(k: &str, d: u64) -> u64 {
 const DURS: [u64; 8] = [0, 0, 1, 400_000, 1_000_000, 1_000_000, 2_500_000, 7_000_000];
 const TOUTS: [u64; 5] = [1, 300_000, 1_000_000, 2_000_000, 5_000_000];
 const MAXR: usize = 8;
+/// MAYV_IDLE: how long an idle arm sleeps, the timeouts of the owner's timed polls
+const IDLE_NS: u64 = 3_000_000_000;
+const TOUTS_IDLE: [u64; 3] = [400_000_000, 600_000_000, 1_000_000_000];
+/// a panic of an arm reaches the poller within this much virtual time (see the oracle list)
+const PANIC_SLACK: u64 = 200_000_000;
+const UNSET: u64 = u64::MAX;
 
 #[derive(Clone)]
 struct Cfg {
@@ -77,6 +91,7 @@ struct Cfg {
     bpanic: u64,
     o2d: bool,
     busy: u64,
+    idle: bool,
 }
 
 struct Sh {
@@ -95,6 +110,7 @@ struct Sh {
     added: AtomicUsize,
     frame_alive: AtomicBool,
     arm_panics: AtomicUsize,    // user panics raised by arms
+    panic_at: Vec<AtomicU64>,   // virtual time of the arm's user panic (UNSET: none)
     reraised: AtomicUsize,      // panics of arms that reached the owner (caught around poll, or left the scope)
     owner_unwound: AtomicBool,  // the owner panicked itself / was cancelled
     cancelled: AtomicBool,
@@ -132,6 +148,17 @@ fn nap(d: u64) {
     } else if d > 0 {
         c.sleep_ns(d);
     }
+}
+fn note_arm_panic(sh: &Arc<Sh>, i: usize) {
+    sh.arm_panics.fetch_add(1, SeqCst);
+    sh.panic_at[i].store(mayv::ctx().now(), SeqCst);
+}
+/// the arm whose panic is overdue: it panicked more than PANIC_SLACK ago and no panic of an arm has reached the owner
+fn overdue_panic(sh: &Arc<Sh>, now: u64) -> Option<(usize, u64)> {
+    if sh.reraised.load(SeqCst) != 0 {
+        return None;
+    }
+    (0..sh.cfg.arms).map(|i| (i, sh.panic_at[i].load(SeqCst))).filter(|&(_, p)| p != UNSET && p + PANIC_SLACK < now).min_by_key(|&(_, p)| p)
 }
 /// MAYV_BUSY: the arm computes for a while: its worker THREAD is kept for i * busy ns, no cancellation point inside
 fn busy_start(sh: &Arc<Sh>, i: usize) {
@@ -183,6 +210,9 @@ fn top_half(sh: &Arc<Sh>, i: usize, round: usize, r: &mut Rng, g: &mut ArmGuard)
     let c = mayv::ctx();
     if round == 0 {
         busy_start(sh, i);
+        if sh.cfg.idle && i > 0 {
+            nap(IDLE_NS);
+        }
     }
     let d = if sh.cfg.eq { 1_000_000 } else { DURS[(r.next() % DURS.len() as u64) as usize] };
     if sh.cfg.eq || r.pct(70) {
@@ -190,8 +220,8 @@ fn top_half(sh: &Arc<Sh>, i: usize, round: usize, r: &mut Rng, g: &mut ArmGuard)
     } else {
         pause(r);
     }
-    if r.pct(sh.cfg.apanic) && r.pct(50) {
-        sh.arm_panics.fetch_add(1, SeqCst);
+    if (r.pct(sh.cfg.apanic) && r.pct(50)) || (sh.cfg.idle && i == 0 && round == 0) {
+        note_arm_panic(sh, i);
         g.user_panic = true;
         c.log("arm.panic", i as u64, 0, None);
         panic!("arm-panic-{i}");
@@ -222,7 +252,7 @@ fn bottom_half(sh: &Arc<Sh>, i: usize, round: usize, r: &mut Rng, g: &mut ArmGua
         pause(r);
     }
     if r.pct(sh.cfg.apanic) || r.pct(sh.cfg.bpanic) {
-        sh.arm_panics.fetch_add(1, SeqCst);
+        note_arm_panic(sh, i);
         g.user_panic = true;
         c.log("arm.panic", i as u64, 1, None);
         panic!("arm-panic-{i}");
@@ -375,7 +405,8 @@ fn cq_owner(sh: &Arc<Sh>, seed: u64) {
                     c.log("cq.opanic", 0, 0, None);
                     panic!("owner-panic");
                 }
-                let to = if r.pct(cfg.to) { Some(TOUTS[(r.next() % TOUTS.len() as u64) as usize]) } else { None };
+                let touts: &[u64] = if cfg.idle { &TOUTS_IDLE } else { &TOUTS };
+                let to = if r.pct(cfg.to) { Some(touts[(r.next() % touts.len() as u64) as usize]) } else { None };
                 let t0 = c.now();
                 c.log("poll.call", to.map_or(0, |d| d + 1), t0, None);
                 let catch = r.pct(cfg.catch);
@@ -401,6 +432,9 @@ fn cq_owner(sh: &Arc<Sh>, seed: u64) {
                                 if now < t0 + d {
                                     c.fail(format!("poll returned Timeout {} ns before the deadline (called at {t0} with {d} ns, now {now})", t0 + d - now));
                                 }
+                                if let Some((i, p)) = overdue_panic(sh, now) {
+                                    c.fail(format!("poll (called at {t0} with a timeout of {d} ns) reported Timeout at {now} although arm {i} had panicked at {p}, {} ns before: its Done event was not consumed and its panic not re-raised by the poll that was pending when the arm ended", now - p));
+                                }
                             }
                         }
                     }
@@ -414,6 +448,11 @@ fn cq_owner(sh: &Arc<Sh>, seed: u64) {
                     Err(e) => {
                         let msg = payload_text(&e);
                         if msg.starts_with("arm-panic-") {
+                            if let Some((i, p)) = overdue_panic(sh, now) {
+                                if now > t0.max(p) + PANIC_SLACK {
+                                    c.fail(format!("the panic of arm {i} (raised at {p}) was re-raised in the poller only at {now}, {} ns after max(panic, call of this poll at {t0}): the poll that was pending when the arm ended was not woken by its Done event", now - t0.max(p)));
+                                }
+                            }
                             if sh.reraised.fetch_add(1, SeqCst) != 0 {
                                 c.fail(format!("a panic of a select coroutine was re-raised in the poller a second time ({msg})"));
                             }
@@ -534,14 +573,17 @@ fn sel_top(sh: &Arc<Sh>, i: usize, seed: u64) -> SelArm {
     let mut r = Rng::new(seed ^ (i as u64 + 1).wrapping_mul(0x9E3779B97F4A7C15));
     let mut tg = TopGuard(sh.clone(), i, false);
     busy_start(sh, i);
+    if sh.cfg.idle && i > 0 {
+        nap(IDLE_NS);
+    }
     let d = if sh.cfg.eq { 1_000_000 } else { DURS[(r.next() % DURS.len() as u64) as usize] };
     if sh.cfg.eq || r.pct(70) {
         nap(d);
     } else {
         pause(&mut r);
     }
-    if r.pct(sh.cfg.apanic) {
-        sh.arm_panics.fetch_add(1, SeqCst);
+    if r.pct(sh.cfg.apanic) || (sh.cfg.idle && i == 0) {
+        note_arm_panic(sh, i);
         c.log("arm.panic", i as u64, 0, None);
         tg.2 = true;
         if !sh.frame_alive.load(SeqCst) {
@@ -570,7 +612,7 @@ fn sel_bot(sh: &Arc<Sh>, i: usize, seed: u64, g: &mut SelArm) {
         pause(&mut r);
     }
     if r.pct(sh.cfg.apanic) {
-        sh.arm_panics.fetch_add(1, SeqCst);
+        note_arm_panic(sh, i);
         g.user_panic = true;
         c.log("arm.panic", i as u64, 1, None);
         panic!("arm-panic-{i}");
@@ -608,6 +650,14 @@ fn select_owner(sh: &Arc<Sh>, seed: u64) {
     }));
     if let Some(i) = all_ended(sh) {
         c.fail(format!("select! left while arm {i} is still executing"));
+    }
+    if let Err(e) = &res {
+        if payload_text(e).starts_with("arm-panic-") {
+            let now = c.now();
+            if let Some((i, p)) = overdue_panic(sh, now) {
+                c.fail(format!("the panic of arm {i} (raised at {p}) left select! only at {now}, {} ns later: the poll that was pending when the arm ended was not woken by its Done event", now - p));
+            }
+        }
     }
     drop(guard);
     let res = match res {
@@ -667,6 +717,7 @@ fn main() {
         bpanic: envn("MAYV_BPANIC", 0),
         o2d: envn("MAYV_O2D", 0) == 1,
         busy: envn("MAYV_BUSY", 0),
+        idle: envn("MAYV_IDLE", 0) == 1,
     };
     let caim_drain = envs("MAYV_CAIM", "") == "drain";
     let owner_co = envs("MAYV_OWNER", "co") != "th";
@@ -697,6 +748,7 @@ fn main() {
             added: AtomicUsize::new(0),
             frame_alive: AtomicBool::new(true),
             arm_panics: AtomicUsize::new(0),
+            panic_at: (0..n).map(|_| AtomicU64::new(UNSET)).collect(),
             reraised: AtomicUsize::new(0),
             owner_unwound: AtomicBool::new(false),
             cancelled: AtomicBool::new(false),
